@@ -184,21 +184,30 @@ Definition expected_real (k : reqkind) (sets : list nat) : bool * option nat * o
        end.
 
 (* ---- the reload sequence of main.go (ModelR.v) against the real handler ----
-   an observed answer: client generation, v4, v6, late (answered only after the held handler was
+   an observed answer: client generation, through the DNS registrar?, v4, v6, late (answered only after the held handler was
    released), HTTP 200?, subnet set and generation of the IPv4 / IPv6 phantom, ClientConf generation
    handed back *)
-Definition pobs := (nat * bool * bool * bool * bool * (option nat * option nat) * (option nat * option nat) * option nat)%type.
+Definition pobs := (nat * bool * bool * bool * bool * bool * (option nat * option nat) * (option nat * option nat) * option nat)%type.
 
-Definition pobs_matches (s : rstate) (o : pobs) : bool :=
-  let '(g, v4, v6, late, ok, sets, gens, cc) := o in
-  let '(g', ecc) := front s false g in
-  if mem g' (r_gens s) then
-    ok && onat_eqb (fst sets) (if v4 then Some (r_set s) else None) && onat_eqb (snd sets) (if v6 then Some (r_set s) else None)
+(* the front end decides in state sf, the selection happens in state ss (the two steps of a request in ModelR.v) *)
+Definition pobs_matches2x (strict_dns : bool) (sf ss : rstate) (o : pobs) : bool :=
+  let '(g, dns, v4, v6, late, ok, sets, gens, cc) := o in
+  let '(g', ecc) := front sf dns g in
+  (* the DNS response only says WHETHER the client is outdated *)
+  (* while the handler is held the DNS flag is not compared: when the DNS registrar learns the new generation
+     relative to the other steps does not matter to a DNS client, which is never moved *)
+  let cc_ok := if dns then negb strict_dns || Bool.eqb (match cc with Some _ => true | None => false end) (match ecc with Some _ => true | None => false end)
+               else onat_eqb cc ecc in
+  if mem g' (r_gens ss) then
+    ok && onat_eqb (fst sets) (if v4 then Some (r_set ss) else None) && onat_eqb (snd sets) (if v6 then Some (r_set ss) else None)
        && onat_eqb (fst gens) (if v4 then Some g' else None) && onat_eqb (snd gens) (if v6 then Some g' else None)
-       && onat_eqb cc ecc
-  else negb ok.
+       && cc_ok
+  else negb ok && (negb dns || cc_ok).
+Definition pobs_matches2 := pobs_matches2x false.
+Definition pobs_matches (s : rstate) (o : pobs) : bool := pobs_matches2 s s o.
+Definition pobs_matches_strict (s : rstate) (o : pobs) : bool := pobs_matches2x true s s o.
 
-Definition is_late (o : pobs) : bool := let '(_, _, _, late, _, _, _, _) := o in late.
+Definition is_late (o : pobs) : bool := let '(_, _, _, _, late, _, _, _, _) := o in late.
 
 (* the state the registrar is in while the handler performs step h of the pinned order *)
 Fixpoint state_before (h : hstep) (ord : list hstep) (s : rstate) (conf : option nat) (P : pub) : rstate :=
@@ -221,9 +230,10 @@ Fixpoint chk_main (s : rstate) (rounds : list mround) : bool :=
     let s_cc := state_before HParse pinned_order s None P in
     let s_sub := state_before HSubnets pinned_order s None P in
     let s' := state_after s P in
-    forallb (fun o => pobs_matches s_cc o || (is_late o && pobs_matches s' o)) at_cc &&
-    forallb (fun o => pobs_matches s_sub o || (is_late o && pobs_matches s' o)) at_sub &&
-    forallb (pobs_matches s') after &&
+    (* an answer that arrived only after the held handler was released: its two steps may lie on either side *)
+    forallb (fun o => pobs_matches s_cc o || (is_late o && (pobs_matches s' o || pobs_matches2 s_cc s' o))) at_cc &&
+    forallb (fun o => pobs_matches s_sub o || (is_late o && (pobs_matches s' o || pobs_matches2 s_sub s' o))) at_sub &&
+    forallb (pobs_matches_strict s') after &&
     chk_main s' r
   end.
 
